@@ -389,7 +389,8 @@ def check_read_loop(ctx):
     # data is forwarded as received
     for n in [n for n in cfg.real_nodes() if any(c == "self.on_data" for c in n.call_names())]:
         c = next(c for c in n.calls if call_name(c) == "self.on_data")
-        ok = bool(c.args) and isinstance(c.args[0], ast.Dict) and any(isinstance(k, ast.Constant) and k.value == "data" and norm(v) == rv for k, v in zip(c.args[0].keys, c.args[0].values))
+        arg0 = rules.expand_ast(cfg.func, c.args[0], depth=1) if c.args and isinstance(c.args[0], ast.Name) else (c.args[0] if c.args else None)  # the event data may be built in a local
+        ok = arg0 is not None and isinstance(arg0, ast.Dict) and any(isinstance(k, ast.Constant) and k.value == "data" and norm(v) == rv for k, v in zip(arg0.keys, arg0.values))
         ctx.ob("C09.P3", q, ok, "received bytes are handed on unchanged" if ok else f"`{norm(c)}` does not pass the received bytes", key="on-data", where=f.where)
     # reconnect re-armed from on_disconnected while enabled
     for cname, start in (("TcpServerConnection", "__start_server_thread"), ("TcpClientConnection", "__start_connect_thread")):
